@@ -412,9 +412,15 @@ class Facts:
         self.consts = {}
         self.witnesses = {}
         self.meta = {}
+        raw = []
         for p in paths:
             with open(p) as f:
-                j = json.load(f)
+                raw.append(json.load(f))
+        import canon
+
+        # private items are renamed to the rules' vocabulary when they can be identified structurally (analysis/canon.py)
+        self.canon_log = canon.canonicalize(raw)
+        for j in raw:
             cn = j["crate"] + "." + j["crate_kind"]
             self.meta[cn] = {k: j[k] for k in ("crate", "crate_kind", "nonce", "overflow_checks", "debug_assertions", "is_test")}
             for b in j["bodies"]:
